@@ -9,6 +9,7 @@ import (
 	"context"
 	"errors"
 	"fmt"
+	"github.com/ipld/go-ipld-prime/codec"
 	"io"
 	"io/fs"
 	"sync"
@@ -71,6 +72,25 @@ var faultKinds = []struct {
 	{"wraps-io.ErrShortWrite", io.ErrShortWrite},
 }
 
+// bareFaults are error values a storage adapter may return unwrapped.
+var bareFaults = []error{io.EOF, io.ErrUnexpectedEOF, context.Canceled, fs.ErrNotExist, &fs.PathError{Op: "open", Path: "/blocks/verif-injected", Err: syscall.ENOENT}}
+
+// genWriteFaultKind is genFaultKind for WRITE faults, where the verdict is only "an error and no link": it also draws the
+// bare values (negative kinds: -1-i selects bareFaults[i]).
+func genWriteFaultKind(t *rapid.T) int {
+	if rapid.IntRange(0, 3).Draw(t, "bareFault") == 0 {
+		return -1 - rapid.IntRange(0, len(bareFaults)-1).Draw(t, "bareFaultKind")
+	}
+	return genFaultKind(t)
+}
+
+func faultKindName(k int) string {
+	if k < 0 {
+		return fmt.Sprintf("bare %v", bareFaults[-1-k])
+	}
+	return faultKinds[k].Name
+}
+
 func genFaultKind(t *rapid.T) int {
 	if rapid.Bool().Draw(t, "plainFault") {
 		return 0
@@ -101,9 +121,12 @@ type Store struct {
 	lsCalls int       // number of LinkSystem() calls so far (selects the set-up variant)
 
 	// read faults
-	Missing    map[cid.Cid]bool
-	MissingIO  bool // true: missing blocks fail with an i/o fault instead of not-found
-	FailReadAt int  // 1-based index of the read open that fails (0 = none)
+	Missing   map[cid.Cid]bool
+	MissingIO bool // true: missing blocks fail with an i/o fault instead of not-found
+	// MissingBare: when non-nil, missing blocks fail with exactly this value (a bare well-known error such as io.EOF,
+	// io.ErrUnexpectedEOF, context.Canceled, fs.ErrNotExist: what a thin storage adapter passes through unwrapped)
+	MissingBare error
+	FailReadAt  int // 1-based index of the read open that fails (0 = none)
 
 	// write faults: 1-based index of the write open whose stage fails
 	FailOpenAt, FailWriteAt, FailCommitAt int
@@ -111,6 +134,10 @@ type Store struct {
 	PartialWrite bool
 	// FaultKind selects the error value injected i/o faults carry (index into faultKinds; 0 = plain)
 	FaultKind int
+
+	// PieceWrites > 0: link systems made for this store encode blocks through a writer that passes them on in pieces of
+	// that many bytes
+	PieceWrites int
 
 	// CancelAt: when the CancelAt-th read open arrives, Cancel() is called (the request's context is cancelled) - and the
 	// block is served all the same, as a store that does not look at contexts does
@@ -128,6 +155,9 @@ func NewStore() *Store {
 
 func (s *Store) fault(what string) error {
 	k := s.FaultKind
+	if k < 0 && -1-k < len(bareFaults) {
+		return bareFaults[-1-k]
+	}
 	if k < 0 || k >= len(faultKinds) {
 		k = 0
 	}
@@ -183,6 +213,9 @@ func (s *Store) openRead(_ linking.LinkContext, l datamodel.Link) (io.Reader, er
 		return nil, s.fault(fmt.Sprintf("read #%d %s", s.FailReadAt, c))
 	}
 	if s.Missing[c] {
+		if s.MissingBare != nil {
+			return nil, s.MissingBare
+		}
 		if s.MissingIO {
 			return nil, s.fault("read " + c.String())
 		}
@@ -259,6 +292,46 @@ func (s *Store) LinkSystem() *ipld.LinkSystem {
 }
 
 func (s *Store) LinkSystemVariant(variant int) *ipld.LinkSystem {
+	ls := s.linkSystemVariant(variant)
+	if s.PieceWrites > 0 {
+		// an encoder that hands the block to storage in several Write calls (a streaming encoder, or one behind a small
+		// buffered writer) - the stock dag-pb and raw encoders happen to use one Write per block
+		inner := ls.EncoderChooser
+		k := s.PieceWrites
+		ls.EncoderChooser = func(lp datamodel.LinkPrototype) (codec.Encoder, error) {
+			enc, err := inner(lp)
+			if err != nil {
+				return nil, err
+			}
+			return func(n datamodel.Node, w io.Writer) error { return enc(n, pieceWriter{w, k}) }, nil
+		}
+	}
+	return ls
+}
+
+type pieceWriter struct {
+	w io.Writer
+	k int
+}
+
+func (p pieceWriter) Write(b []byte) (int, error) {
+	total := 0
+	for len(b) > 0 {
+		n := p.k
+		if n > len(b) {
+			n = len(b)
+		}
+		m, err := p.w.Write(b[:n])
+		total += m
+		if err != nil {
+			return total, err
+		}
+		b = b[n:]
+	}
+	return total, nil
+}
+
+func (s *Store) linkSystemVariant(variant int) *ipld.LinkSystem {
 	ls := cidlink.DefaultLinkSystem()
 	switch variant {
 	case 1:
